@@ -6,6 +6,8 @@ import SnootyVerif.Gen.Dispatch
 import SnootyVerif.Gen.NodeKinds
 import SnootyVerif.Gen.Emitted
 import SnootyVerif.Gen.Enum
+import SnootyVerif.Gen.VisitPaths
+import SnootyVerif.Model.Visitor
 open Lean
 namespace SnootyVerif.Drv.C01
 open SnootyVerif.Drv
@@ -85,7 +87,68 @@ def validateOp (j : Json) : Except String Json := do
   | .ok (.str s) => pure (Json.mkObj [("ok", Json.str (String.ofList s))])
   | .error e => pure (jerr (match e with | .ValueError => "ValueError" | .TypeError => "TypeError" | .KeyError => "KeyError" | .AttributeError => "AttributeError"))
 
+/-! ### the visitor's node stack on a recorded walk -/
+
+open SnootyVerif.Visitor in
+def kindOfTag (s : String) : Except String AKind :=
+  if s == "parent" then pure .parent else if s == "leaf" then pure .leaf else if s == "term" then pure .term
+  else if s == "dlItem" then pure .dlItem else if s == "noChildren" then pure .noChildren else throw s!"unknown AST kind {s}"
+
+def mroOf (cls : String) : List String := (Dispatch.lookup Gen.nodeKinds cls).getD [cls]
+
+/-- does `dispatch_departure` of this visitor return at once for a node of class `cls`? -/
+def departSkipOf (inline : Bool) (cls : String) : Bool :=
+  let mro := mroOf cls
+  Dispatch.meets Gen.departSkipClasses mro
+    || (inline && Dispatch.meets Gen.inlineDepartSkip.1 mro && !Dispatch.meets Gen.inlineDepartSkip.2 mro)
+
+/-- the translated paths of the branch a node of class `cls` takes -/
+def pathsFor (inline : Bool) (cls : String) : List (Nat × String × String) :=
+  let mro := mroOf cls
+  if inline && Dispatch.meets Gen.inlineSkip.1 mro && !Dispatch.meets Gen.inlineSkip.2 mro then [(0, "normal", "inline filter")]
+  else
+    let rec go : List (List String × List (Nat × String × String)) → List (Nat × String × String)
+      | [] => Gen.visitPathsElse
+      | (cs, ps) :: rest => if Dispatch.meets cs mro then ps else go rest
+    go Gen.visitPaths
+
+open SnootyVerif.Visitor in
+/-- node = [id, class, pushes, exit tag, AST kind tag, children]; returns the DNode and the nodes whose observed outcome is not a
+translated path of their branch -/
+partial def dnodeOf (inline : Bool) (j : Json) : Except String (DNode × List Json) := do
+  let a ← j.getArr?
+  if a.size != 6 then throw "node: expected 6 fields"
+  let id ← a[0]!.getNat?
+  let cls ← a[1]!.getStr?
+  let pushes ← a[2]!.getNat?
+  let exitTag ← a[3]!.getStr?
+  let kind ← kindOfTag (← a[4]!.getStr?)
+  let kids ← (← a[5]!.getArr?).toList.mapM (dnodeOf inline)
+  let exit ← match exitOfTag exitTag with
+    | some e => pure e
+    | none => throw s!"unknown exit {exitTag}"
+  let listed := (pathsFor inline cls).any (fun p => p.1 == pushes && p.2.1 == exitTag)
+  let mine := if listed then [] else [Json.arr #[Json.num (JsonNumber.fromNat id), Json.str cls, Json.num (JsonNumber.fromNat pushes), Json.str exitTag]]
+  pure (.mk id pushes exit kind (departSkipOf inline cls) (kids.map (·.1)), mine ++ (kids.map (·.2)).flatten)
+
+open SnootyVerif.Visitor in
+partial def tJson : T → Json
+  | .mk i _ term cs => Json.mkObj [("i", Json.num (JsonNumber.fromNat i)), ("t", Json.arr (term.map tJson).toArray), ("c", Json.arr (cs.map tJson).toArray)]
+
+open SnootyVerif.Visitor in
+/-- request: {inline: bool, tree: node} → {ok: tree | err: name, balanced, termsOk, plain, unlisted: [...], spec: tree} -/
+def visitOp (j : Json) : Except String Json := do
+  let inline ← bool j "inline"
+  let (d, unlisted) ← dnodeOf inline (← j.getObjVal? "tree")
+  let res := match walkDoc d with
+    | .ok t => ("ok", tJson t)
+    | .error e => ("err", Json.str e.name)
+  let (rootKind, kids, rootId) := match d with | .mk i _ _ k _ cs => (k, cs, i)
+  let spec := tJson (attachAllT (.mk rootId rootKind [] []) (emitL kids))
+  pure (Json.mkObj [res, ("balanced", Json.bool (balancedL kids)), ("termsOk", Json.bool (termsOkL rootKind kids)),
+                    ("plain", Json.bool (plainL kids)), ("unlisted", Json.arr unlisted.toArray), ("spec", spec)])
+
 def ops : List (String × (Json → Except String Json)) :=
-  [("c01.table", table), ("c01.enum", enumOp), ("c01.validate", validateOp)]
+  [("c01.table", table), ("c01.enum", enumOp), ("c01.validate", validateOp), ("c01.visit", visitOp)]
 
 end SnootyVerif.Drv.C01
